@@ -9,6 +9,7 @@ theorems apply the term to the model function's arguments in that order, so a si
 import re, sys, os
 sys.path.insert(0, os.path.dirname(os.path.abspath(__file__)))
 import gen_constants as gc
+import gen_guard as gg
 
 class Unsupported(Exception):
     pass
@@ -85,7 +86,7 @@ def call_args(txt, start):
 
 class Fn:
     def __init__(self, repo, rel, name, callees, consts):
-        self.rel, self.name, self.callees, self.consts = rel, name, callees, consts
+        self.rel, self.name, self.callees, self.consts, self.repo = rel, name, callees, consts, repo
         self.text = gc.load(repo, rel)
         body = gc.fn_body(self.text, name, rel, unique=True)
         msk = gc.mask_literals(self.text)
@@ -122,6 +123,7 @@ class Fn:
     def lidx(self, n):
         return self.locals.index(n) if n in self.locals else None
     def const_bytes(self, name):
+        gg.unique_array_const(self.text, self.rel, name)
         try: return gc.find_array(self.text, name, self.rel)
         except gc.Missing: raise Unsupported("constant " + name + " is not a byte array of " + self.rel)
     def fed(self, a):
@@ -156,7 +158,7 @@ class Fn:
             i, k = self.pidx(m.group(1))
             if k == "gen": return "HArg.byteOf %d" % i
             raise Unsupported("as_u8() on " + m.group(1))
-        if re.fullmatch(r"[A-Z][A-Z0-9_]*", a):
+        if re.fullmatch(r"[A-Z][A-Z0-9_]*", a) and self.lidx(a) is None and self.pidx(a)[0] is None:
             return "HArg.lit " + gc.lean_bytes(self.const_bytes(a))
         if re.fullmatch(r"\w+", a):
             j = self.lidx(a)
@@ -227,7 +229,7 @@ class Fn:
                 open_hmac = [m.group(1), self.fed(m.group(2)), []]; i += 1; continue
             m = re.fullmatch(LET + r"\[0_u8;([^\]]+)\];", s)
             if m:
-                self.define(m.group(1), "HStmt.zeros %d" % self.consts.eval(m.group(2))); i += 1; continue
+                self.define(m.group(1), "HStmt.zeros %d" % gg.const_expr(self.repo, self.text, self.rel, m.group(2), self.consts)); i += 1; continue
             m = re.fullmatch(r"let mut (\w+)=\[0_u8;([^\]]+)\];", s)
             if m and i + 1 < len(sts):
                 X = m.group(1)
@@ -235,7 +237,7 @@ class Fn:
                 if not f: raise Unsupported("loop after `let mut %s`: %s" % (X, sts[i + 1][:120]))
                 if len({f.group(1), f.group(2), X}) != 3: raise Unsupported("loop variable names")
                 a, b = f.group(3), f.group(4) or f.group(5)
-                self.define(X, "HStmt.xorInto %d (%s) (%s)" % (self.consts.eval(m.group(2)), self.fed(a), self.fed(b))); i += 2; continue
+                self.define(X, "HStmt.xorInto %d (%s) (%s)" % (gg.const_expr(self.repo, self.text, self.rel, m.group(2), self.consts), self.fed(a), self.fed(b))); i += 2; continue
             m = re.fullmatch(LET + r"(.*);", s)
             if m:
                 t = self.sha_expr(m.group(2)) or self.call_expr(m.group(2))
@@ -277,23 +279,16 @@ def translate_one(repo, rel, fn, callees, consts):
             if crel != rel and len(re.findall(r"\bfn\s+" + cn + r"\b", gc.mask_literals(gc.load(repo, rel)))) != 0:
                 raise Unsupported("%s is also defined in %s" % (cn, rel))
             if crel != rel:
-                # ... and the name is brought into this file by exactly one `use`, from that file's module (no alias, no glob that could supply it)
-                import gen_api
-                try: gen_api.check_provenance(gc.load(repo, rel), rel, {cn})
-                except gen_api.Unsupported as ex: raise Unsupported(str(ex))
+                # ... and the name is brought into this file by exactly one `use`, from that file's module (no alias, no glob, no local item)
+                gg.imported_only(gc.load(repo, rel), rel, cn, {"crate::" + crel[4:-3].replace("/", "::") + "::" + cn})
         f = Fn(repo, rel, fn, callees, consts)
         res = f.translate()
-        # `Sha1` / `Hmac` are the types of the sha1 / hmac crates (one plain `use`, no alias, no local type of that name)
-        import gen_api
-        imp = gen_api.use_imports(f.text)
-        msk = gc.mask_literals(f.text)
-        need = {"Sha1": "sha1::Sha1"}
-        if any(x.startswith("HStmt.hmac") for x in f.stmts): need["Hmac"] = "hmac::Hmac"
-        for tn, path in need.items():
-            if imp.get(tn) != [path] or re.search(r"\b(?:struct|type|enum|trait|mod|fn)\s+" + tn + r"\b", msk):
-                raise Unsupported("%s: %s is not (only) %s: %s" % (rel, tn, path, imp.get(tn)))
+        # `Sha1` / `Digest` / `Hmac` / `Mac` are the sha1 / hmac crates' (one plain `use`, no local item, no trait defined in the file);
+        # nothing but doc / allow / must_use attributes, `pub` and `const` in front of the function
+        gg.hash_types(f.text, rel, any(x.startswith("HStmt.hmac") for x in f.stmts))
+        gg.fn_header(f.text, rel, fn)
         return "⟨[%s], %s, none⟩" % (", ".join(f.stmts), res)
-    except (Unsupported, gc.Missing) as ex:
+    except (Unsupported, gg.Unsupported, gc.Missing) as ex:
         return "⟨[], HArg.lit [], some %s⟩" % lean_str(str(ex))
     except Exception as ex:
         return "⟨[], HArg.lit [], some %s⟩" % lean_str("translator error %s: %s" % (type(ex).__name__, ex))
